@@ -689,6 +689,10 @@ where
     }
 }
 
+#[cfg(all(greatest_ape_aquatic_verif, kani))]
+#[path = "/verif/harness/in_ws_storage.rs"]
+pub mod verif_harness;
+
 #[cfg(test)]
 mod tests {
     use hashbrown::HashSet;
